@@ -1,4 +1,5 @@
-"""C39 — build configurations: the preprocessor structure of the utility code is consistent in every configuration.
+"""C39 — build configurations: the preprocessor structure of the utility code is consistent in every configuration; the #if variants of one
+helper agree on reference ownership, object family and integer sign predicates; the string-table branches pass the lengths of their own arrays.
 
 Pure reading of Cython/Utility/*.c|h|cpp and the compiler sources; no compiler or preprocessor is run.
 """
@@ -13,7 +14,10 @@ TECHNIQUE = ('must-analysis of #define/#undef over the #if tree of the platform 
              'whose value is read; satisfiability/implication of #if conditions (enumeration over small domains, `defined(X)` tied to X) for every '
              'prototype/definition pair of a utility section; table agreement for the string-compression switch; known-bits abstract interpretation of the LZSS '
              'writer/reader pair (shared with C12); symbolic execution (linear length forms + path constraints) of the C-API variant of a unicode builder against the '
-             'length its PyUnicode_New variant allocates')
+             'length its PyUnicode_New variant allocates; abstract evaluation of the #if variants of one helper macro (reference ownership lattice new/borrowed/null, object family of '
+             'the C-API applied to the first argument; small path-sensitive walk for C function variants); complete decision table of the __Pyx_PyLong_* sign/size macros over '
+             'sign x digit count for both integer layouts; reconstruction of the emitted __Pyx_Decompress* calls (f-string / %-format / .format) with name resolution through locals, '
+             'loop targets, list rows and call sites')
 DECIDES = ('(M3a) in ModuleSetupCode.c the branches of the platform selection (#if CYTHON_LIMITED_API / GraalPy / PyPy / CPython) leave the same set of CYTHON_* '
            'feature macros certainly defined on every preprocessor path; (M3b) every CYTHON_* macro whose *value* is read by an #if/#elif in Cython/Utility '
            '(not protected by a defined() guard) is #defined somewhere in Cython/Utility or emitted as a #define by Cython/Compiler/*.py - an undefined '
@@ -27,18 +31,37 @@ DECIDES = ('(M3a) in ModuleSetupCode.c the branches of the platform selection (#
            'biases, range guards vs field widths). '
            '(LEN, sa/rules/sC39.py) a helper that allocates its result with PyUnicode_New(n) under one setting of the feature macros and composes it from C-API calls under '
            'the other (__Pyx_PyUnicode_BuildFromAscii: CYTHON_USE_UNICODE_INTERNALS / Limited API) returns a string of length n on every path of the composing variant, for '
-           'flag parameters in {0, 1} and all lengths with 0 <= clength <= ulength.')
+           'flag parameters in {0, 1} and all lengths with 0 <= clength <= ulength. '
+           '(OWN, round 4) every variant of a multi-variant utility helper (function-like macro under #if CYTHON_ASSUME_SAFE_MACROS / CYTHON_AVOID_BORROWED_REFS / Limited API / version tests; C function '
+           'variants where one returned local or one `PyObject **` out-parameter can be followed) hands its caller a reference of the same ownership class; no variant mixes classes on its ?: arms '
+           'or takes a new reference to a new reference. (FAM) the variants of one helper apply the concrete-type C-API of one object family to the first argument, and it is the family the helper is '
+           'named after. (SIGN) with CYTHON_USE_PYLONG_INTERNALS the sign/size macros of the 3.12 tag-word layout and of the ob_size layout return, for every sign x digit count, what their name '
+           'promises (IsNeg/IsNonNeg/IsZero/IsNonZero/IsPos/Sign/DigitCount/SignedDigitCount/CompactValue/CompactValueUnsigned; IsCompact one-sided: true only for ints of at most one digit - it merely gates fast paths), other names the same value in both layouts; the fallback '
+           '_PyLong_* constants equal cpython/longintrepr.h. (STRTAB) every emitted __Pyx_DecompressString*/LZSS call passes len() of the array written under the C name it passes, and len() of the data '
+           'that was compressed into it for the result-size parameter; no preprocessor branch #defines the macro that compiles the helper it calls to `return NULL`.')
 NOT_DECIDED = ('behavioural equality of the branches selected by a feature macro beyond the result length of the unicode builder (the characters written, '
                '__Pyx_PyUnicode_Join whose fallback length depends on the joined values); C versus C++ semantics; optimisation levels; the semantics-neutral directives '
                '(binding, optimize.*, always_allow_keywords, auto_pickle); the text of the emitted `#if (CYTHON_COMPRESS_STRINGS) == n` chain beyond the table '
                '(its #else fallback is emitted from string fragments and is not modelled); M1 of the design (clang -fsyntax-only of assembled translation units '
                'under a macro matrix) is not built: the assembly needs a hand-written prelude and module-state stubs, which would make it a brittle proxy. '
-               'Templated sections (Tempita / %-substituted conditions or names) are skipped by M2 and M3b and counted as info.')
+               'Templated sections (Tempita / %-substituted conditions or names) are skipped by M2 and M3b and counted as info. '
+               'OWN/FAM: helpers whose variants are statement macros, C functions with loops/goto/#if inside, or whose result is not an object are not classified (counted in the info line); '
+               'agreement of the variants on index wrap-around / bounds checking / exception type is not decided (depends on the index values callers pass; __Pyx_PySequence_ITEM differs by design). '
+               'SIGN: the delegating variants (PyUnstable_Long_IsCompact / _CompactValue) and the two-argument __Pyx_PyLong_CompareSignAndSize (C function in one layout) are not evaluated. '
+               'STRTAB: that a missing `#define ..._UNUSED` leaves an unused helper in the module is not a behavioural defect and is not reported; the `algo` argument is covered by ALG only.')
 ASSUMPTIONS = ['an identifier that is not #defined evaluates to 0 in #if (C11 6.10.1p4)',
                'every section of a utility file is emitted as a unit, so its #if groups are balanced within the section',
                'C39-LEN: C-API result lengths from the CPython documentation (FromOrdinal 1, Repeat len*n, DecodeASCII n, Concat sum); allocation failures are not explored; '
                'the contract of the builder is 0 <= clength <= ulength (implied by the in-bounds writes of the PyUnicode_New variant) and 0/1 flags - the stronger guarantee '
-               'of today\'s callers (ulength >= clength + 2 when prepend_sign is set) is not used']
+               'of today\'s callers (ulength >= clength + 2 when prepend_sign is set) is not used',
+               'C39-OWN: a C-API function declared in the installed headers as returning `PyObject *` returns a new reference unless it is in the frozen table of "Return value: Borrowed reference" '
+               'entries of the C-API reference (sC39.BORROWED_API); private (_Py*), PyUnstable_* and foreign functions are never guessed; a bare macro parameter is the caller\'s own (borrowed) reference',
+               'C39-FAM: Py<Family>_* functions with a type object Py<Family>_Type in the installed headers require an object of that family as first argument, except *_Check/*_CheckExact, '
+               'constructors/conversions (From*/New*) and functions whose first parameter is not an object; FrozenSet/AnySet=Set, AnyDict/FrozenDict/ODict=Dict, Bool=Long',
+               'C39-SIGN: 3.12 tag word = (ndigits << _PyLong_NON_SIZE_BITS) | {positive 0, zero 1, negative 2}; before 3.12 ob_size = sign * ndigits; zero has no digits (its digit[0] is 0 in the '
+               'tag layout, undefined in the ob_size layout); casts to signed types are value preserving on the small values of the domain',
+               'C39-STRTAB: a name assigned inside a loop and read outside of it holds the value of the last iteration; the writer of a C array is the call that receives the C variable name as a string '
+               'constant next to the data']
 
 MSC = 'Cython/Utility/ModuleSetupCode.c'
 UTIL = 'Cython/Utility'
@@ -73,6 +96,25 @@ MUTATIONS += [   # strengthening round (seeds C39a / C39b): all reported with ex
     ('Cython/Utility/StringTools.c', "fallback: `PyUnicode_DecodeASCII(chars, clength - 1, NULL)`", 'C39-LEN StringTools.c:__Pyx_PyUnicode_BuildFromAscii'),
     ('Cython/Utility/StringTools.c', "internals variant: `PyUnicode_New(ulength + 1, 127)`", 'C39-LEN StringTools.c:__Pyx_PyUnicode_BuildFromAscii'),
 ]
+MUTATIONS += [   # strengthening round 4 (patches under mutants/C39/, replayed by the thorough tier): all reported with exit 1
+    (MSC, "__Pyx_PyList_GetItemRef (!SAFE_MACROS variant): drop __Pyx_XNewRef()", 'C39-OWN own:__Pyx_PyList_GetItemRef'),
+    (MSC, "__Pyx_PyList_GET_ITEM_REF (SAFE_MACROS variant): drop __Pyx_NewRef()", 'C39-OWN own:__Pyx_PyList_GET_ITEM_REF'),
+    (MSC, "__Pyx_PyTuple_GET_ITEM (!SAFE_MACROS variant): PyTuple_GetItem -> PySequence_GetItem", 'C39-OWN own:__Pyx_PyTuple_GET_ITEM'),
+    (MSC, "__Pyx_PyDict_GetItemRef (PyDict_GetItemWithError variant): delete Py_INCREF(*result) / move it into the NULL branch", 'C39-OWN own:__Pyx_PyDict_GetItemRef:*result'),
+    ('Cython/Utility/FunctionArguments.c', "__Pyx_ArgRef_VARARGS (else variant): drop __Pyx_XNewRef()", 'C39-OWN own:__Pyx_ArgRef_VARARGS'),
+    ('Cython/Utility/Exceptions.c', "__Pyx_PyProbablyModule_GetDict macro variant: drop __Pyx_XNewRef() (the C function variant returns a new reference)", 'C39-OWN own:__Pyx_PyProbablyModule_GetDict'),
+    (MSC, "__Pyx_PySequence_ListKeepNew (3.14 variant): `__Pyx_NewRef(obj)` -> `(obj)`", 'C39-OWN own:__Pyx_PySequence_ListKeepNew'),
+    (MSC, "__Pyx_PySequence_ITEM (!SAFE_MACROS variant): __Pyx_NewRef(PySequence_GetItem(o, i))", 'C39-OWN own:__Pyx_PySequence_ITEM'),
+    (MSC, "__Pyx_PySet_GET_SIZE (!SAFE_SIZE): PySet_Size -> PyDict_Size", 'C39-FAM fam:__Pyx_PySet_GET_SIZE'),
+    (MSC, "__Pyx_PyBytes_GET_SIZE (SAFE_SIZE): PyBytes_GET_SIZE -> PyByteArray_GET_SIZE", 'C39-FAM fam:__Pyx_PyBytes_GET_SIZE'),
+    (MSC, "__Pyx_PyTuple_GET_SIZE (!SAFE_SIZE): PyTuple_Size -> PyList_Size; __Pyx_PyList_SET_ITEM (SAFE_MACROS): PyTuple_SET_ITEM", 'C39-FAM'),
+    ('Cython/Utility/TypeConversion.c', "__Pyx_PyByteArray_AsString (!SAFE_MACROS): PyBytes_AsString", 'C39-FAM fam:__Pyx_PyByteArray_AsString'),
+    ('Cython/Utility/TypeConversion.c', "tag layout: IsNeg `& 1`; Sign `SignBits - 1`; IsZero `& 2`; DigitCount `>> 2`; fallback _PyLong_SIGN_MASK 1", 'C39-SIGN sign:__Pyx_PyLong_<name> / sign:const:'),
+    ('Cython/Utility/TypeConversion.c', "ob_size layout: IsPos `>= 0`; CompactValue negates for `> 0`; IsCompact accepting two digits; SignedDigitCount abs()", 'C39-SIGN sign:__Pyx_PyLong_<name>'),
+    ('Cython/Compiler/Code.py', "generate_pystring_constants: len(concat_bytes) as length of the compressed array; LZSS lengths swapped; len(bytes_values) as result size; stale `compressed_size`; "
+     "concat_bytes written as `cstring`", 'C39-STRTAB strtab:GlobalState.generate_pystring_constants:<helper>:<parameter>'),
+    ('Cython/Compiler/Code.py', "generate_pystring_constants: the two `#define ..._UNUSED` lines exchanged / the LZSS branch defines both", 'C39-STRTAB strtab:...:__Pyx_DecompressString_LZSS:enabled'),
+]
 PRESERVING = [
     # behaviour-preserving edits, all silent
     (MSC, "`#ifndef CYTHON_USE_TYPE_SPECS` -> `#if !defined(CYTHON_USE_TYPE_SPECS)` in the PyPy block"),
@@ -86,6 +128,14 @@ PRESERVING = [
     ('Cython/LZSS.py', "`(offset & 0x7F) | 0x80` -> `0x80 | (offset & 127)`"),
     ('Cython/Utility/StringTools.c', "fallback: repeat also for a count of 1 (`uoffset > prepend_sign + 1` -> `uoffset > prepend_sign`)"),
     ('Cython/Utility/StringTools.c', "fallback: `if (!(uoffset <= prepend_sign))`, cast on padding_char, temp renamed, count written `-(prepend_sign - uoffset)`"),
+    # strengthening round 4: C39-OWN / FAM / SIGN / STRTAB silent
+    (MSC, "macro bodies wrapped in casts and parentheses; rows of the SAFE_SIZE table reordered; `#if !CYTHON_ASSUME_SAFE_SIZE` with exchanged branches; last two branches of __Pyx_PyList_GET_ITEM_REF under the negated test"),
+    (MSC, "__Pyx_PyDict_GetItemRef borrowed-API variant as if/else with `!= NULL` and Py_XINCREF; through a local variable (variant then skipped)"),
+    (MSC, "__Pyx_PyDict_GET_SIZE via PyObject_Size; __Pyx_PySet_GET_SIZE as `PyAnySet_Check(o) ? PySet_GET_SIZE(o) : PySet_Size(o)`"),
+    ('Cython/Utility/StringTools.c', "`(Py_INCREF(s), s)` -> `__Pyx_NewRef(s)` in __Pyx_PyObject_FormatSimple"),
+    ('Cython/Utility/TypeConversion.c', "IsNeg `== 2`, IsZero `== 1`; Sign as `(Py_SIZE(x) > 0) - (Py_SIZE(x) < 0)`; tag word through a new macro __Pyx_PyLong_Tag; IsCompact via DigitCount; the two layouts "
+     "exchanged under `#if PY_VERSION_HEX < 0x030C00A7`"),
+    ('Cython/Compiler/Code.py', "lengths held in locals; %-format / str.format instead of f-strings; emission moved into a module-level helper function; `compressions` rows carry the size as a fourth element"),
 ]
 
 
@@ -370,4 +420,10 @@ def run(ctx):
 
     # ---------------------------------------------------------------- LEN: feature-macro variants of a unicode builder agree on the result length
     rules.append(sC39.rule_len(ctx))
+
+    # ---------------------------------------------------------------- strengthening round 4: #if variants of one helper agree (ownership, object family)
+    rules.append(sC39.rule_own(ctx))
+    rules.append(sC39.rule_fam(ctx))
+    rules.append(sC39.rule_sign(ctx))
+    rules.append(sC39.rule_strtab(ctx))
     return rules
